@@ -43,18 +43,20 @@ ASSUMPTIONS = [
     "the HMM's parameters are the configuration's transition_tensor()/observation_tensor() used as row logits, "
     "initial state N//2 followed by one transition (as in genjax's own exact_testbed model)",
     "jax.random.categorical(key, logits) draws from softmax(logits); distinct split keys are independent",
+    "for T >= 2 library calls run under jax.disable_jit() (lax.scan/cond as Python loops, same primitives); "
+    "cross-checked bit-for-bit against the ordinary eager mode on the default path of one case per (configuration, N, T)",
     "parameters outside the 2-value alphabets (truncation {0,1}, variance {0.5,1.0}) and N > 3, T > 3 are not covered",
 ]
 BOUNDS = {
     "quick": dict(
-        N2="T in {1,2}, all observation sequences, 8 configurations (half factorial of truncation x variance alphabets)",
+        N2="T = 2: 8 configurations (half factorial of truncation x variance alphabets: every triple of parameter values "
+           "occurs); T = 1: 2 configurations; all observation sequences",
         N3="T = 2, all 9 observation sequences, 3 configurations",
         latent="all N**T latent sequences", tree="complete (N**T leaves)",
     ),
     "thorough": dict(
         N2="T in {1,2,3}, all observation sequences, all 16 configurations",
-        N3="T in {1,2}: all 16 configurations; T = 3: 8 configurations (half factorial, every triple of parameter "
-           "values occurs), all 27 observation sequences",
+        N3="T in {1,2,3}, all observation sequences (27 for T = 3), all 16 configurations",
         latent="all N**T latent sequences", tree="complete (N**T leaves)",
     ),
 }
@@ -116,6 +118,15 @@ def _blame(e):
 
 def _run(N, kt, ko, st, so, obs, seed):
     def run(ctx):
+        import jax
+
+        # op-by-op evaluation: lax.scan / lax.cond run as Python loops instead of being re-compiled on
+        # every call (the library cannot be jitted, and a plain eager call compiles two scans per call)
+        # (a zero-length scan inside TFP's HiddenMarkovModel is not supported in that mode: T = 1 runs plainly)
+        with jax.disable_jit(len(obs) >= 2):
+            body(ctx)
+
+    def body(ctx):
         import jax
         import jax.numpy as jnp
 
@@ -200,6 +211,17 @@ def _run(N, kt, ko, st, so, obs, seed):
                     paths, stats = seam.explore(ffbs, max_paths=4096)
                 except Exception as e2:
                     ctx.fail(_blame(e2), "ffbs", "any", f"exception:{type(e2).__name__}", dict(**detail0, error=str(e2)[:300]))
+            # the op-by-op mode must agree bit-for-bit with the ordinary eager mode (default path)
+            if paths is not None and T >= 2 and all(o == 0 for o in obs):
+                fn = rw if op == "random_weighted" else ffbs
+                with jax.disable_jit(False):
+                    r_plain = seam.run_with(fn, {})[0]
+                r_obo = seam.run_with(fn, {})[0]
+                ctx.ev((cfg_key, obs, op, "eager_vs_op_by_op"), nontrivial=False)
+                same = all(np.array_equal(np.asarray(r_plain[k]), np.asarray(r_obo[k])) for k in r_plain)
+                if not same:
+                    ctx.fail("harness", op, "eager_vs_op_by_op", "mode_dependent", dict(**detail0, plain=r_plain, op_by_op=r_obo))
+                ctx.note("mode_crosschecks")
         if paths is not None:
             ctx.note("trees")
             ctx.note("paths", len(paths))
@@ -260,8 +282,8 @@ def _plan(tier, seed):
         # three configurations for N=3 in which both values of every parameter occur
         triples = [t for t in itertools.combinations(half, 3) if all(len({c[i] for c in t}) == 2 for i in range(4))]
         n3 = list(triples[(seed // 2) % len(triples)])
-        return [(3, 2, n3), (2, 2, half), (2, 1, half)]
-    return [(3, 3, half), (2, 3, allc), (3, 2, allc), (2, 2, allc), (3, 1, allc), (2, 1, allc)]
+        return [(3, 2, n3), (2, 2, half), (2, 1, n3[:2])]
+    return [(3, 3, allc), (2, 3, allc), (3, 2, allc), (2, 2, allc), (3, 1, allc), (2, 1, allc)]
 
 
 def cases(tier, seed):
